@@ -10,4 +10,6 @@ cd harness
 for p in pubcheck hookcheck loomcheck; do
   cargo build --release --offline -p $p
 done
+# unoptimised probe for family (h) of C15
+cargo build --offline -p deepprobe
 CARGO_TARGET_DIR="$(pwd)/target/probe" cargo build --release --offline --manifest-path sendsync_probe/Cargo.toml
